@@ -204,6 +204,9 @@ type Program struct {
 	Records int    `json:"records"`
 	Threads [][]Op `json:"threads"`
 	Reps    int    `json:"reps"` // every thread runs its list this many times
+	// Pause: schedule point -> microseconds to sleep there (a plain sleep: unlike parking it adds no synchronisation that
+	// could hide a race from the detector); e.g. Close pausing after it marked a Reader closed widens that window.
+	Pause map[string]int `json:"pause,omitempty"`
 }
 
 func init() {
@@ -213,7 +216,7 @@ func init() {
 var menus = map[string][]string{
 	"writer":      {"write1", "write3", "writeCancel", "stats", "stats", "envAddBroker", "envDropBroker", "envMoveLeader", "close"},
 	"reader":      {"fetch", "fetch", "read", "setOffset", "setOffsetAt", "offset", "lag", "readLag", "stats", "config", "close"},
-	"groupreader": {"fetch", "fetch", "commit", "commit", "read", "offset", "lag", "stats", "config", "close"},
+	"groupreader": {"fetch", "fetch", "commit", "commit", "read", "offset", "lag", "stats", "config", "envRebalance", "envRebalance", "close", "close"},
 	"conn": {"setDeadline", "setReadDeadline", "setWriteDeadline", "offset", "seekStart", "seekEnd", "seekAbs", "seekCur", "firstOffset", "lastOffset", "readOffsets",
 		"write", "writeCompressed", "readBatch", "readMessage", "read", "partitions", "brokers", "controller", "apiVersions", "broker", "addrs", "createTopics", "deleteTopics", "setRequiredAcks", "close"},
 	"batch":    {"read", "read", "readMessage", "readMessage", "offset", "hwm", "throttle", "partition", "err", "close"},
@@ -463,6 +466,9 @@ func (e *env) exec(thread int, op Op) {
 			b.Alive = false
 		}
 		e.cl.Unlock()
+		return
+	case "envRebalance":
+		e.cl.ForceRebalance("g")
 		return
 	case "envMoveLeader":
 		ids := e.cl.BrokerIDs()
@@ -729,6 +735,15 @@ func runProgram(tb ev.TB, p Program) (labels []string, nontrivial bool) {
 	before := raceErrors()
 	newRaceReports() // drop anything that belongs to an earlier program
 	base := libraryGoroutines()
+	if len(p.Pause) > 0 {
+		pause := p.Pause
+		kafka.SetVerifHook(func(point string) {
+			if us := pause[point]; us > 0 {
+				time.Sleep(time.Duration(us) * time.Microsecond)
+			}
+		})
+		defer kafka.SetVerifHook(nil)
+	}
 	e := setup(tb, p)
 	var wg sync.WaitGroup
 	start := make(chan struct{})
@@ -860,6 +875,10 @@ func genProgram(t *rapid.T, subject string) Program {
 	p.Reps = rapid.SampledFrom([]int{1, 2, 5}).Draw(t, "reps")
 	if subject == "balancer" || subject == "codec" {
 		p.Reps *= 20 // pure in-memory calls: repeat so that they actually overlap
+	}
+	if (subject == "groupreader" || subject == "reader" || subject == "writer") && rapid.IntRange(0, 2).Draw(t, "pause") == 0 {
+		point := map[string]string{"groupreader": "reader.closeMarked", "reader": "reader.closeMarked", "writer": "writer.closeMarked"}[subject]
+		p.Pause = map[string]int{point: rapid.SampledFrom([]int{500, 5000, 30000}).Draw(t, "pauseUs")}
 	}
 	return p
 }
